@@ -101,6 +101,14 @@ Proof.
 Qed.
 Print Assumptions C12_other_traffic_answered.
 
+(* The hypothesis no_reuse holds on every run in which at most 65 536 frames (commands and automatic replies)
+   were handed to the socket of this connection: a structural, decidable sufficient condition. *)
+Theorem C12_no_reuse_when_few_frames : forall s0 sched, s0 < 65536 ->
+  let tr := trace step (init s0) sched in
+  N.of_nat (length (serials tr)) <= 65536 -> no_reuse tr.
+Proof. exact no_reuse_if_few_frames. Qed.
+Print Assumptions C12_no_reuse_when_few_frames.
+
 (* ---- the hypotheses are satisfiable, also across the wrap of the serial counter ---- *)
 Definition up : list choice := [PeerSend (TOther 7 true); RdRead; MgrStep JOk; RdPush; WMsg 0 true].
 
